@@ -67,7 +67,9 @@ the code leaves there; `stale` (ghost) records that a `Node.callFinalizer` reach
 delFuncs that had run before.  `clearDel` is configuration, not state: `mBucket.delete` takes the delFuncs out
 of the node (`delFuncs := n.delFuncs; n.delFuncs = nil` under `n.mu`) before it calls them — the repaired code,
 `Gen.cacheDeleteClearsDelFuncs`; with `false` it is the code before that repair, which ran `n.delFuncs` and left
-them in place. -/
+them in place.  `recheck` is configuration too: in the closed branch of `Node.unRefExternal` the finaliser is
+called only `if atomic.LoadInt32(&n.ref) == 0` — the repaired code, `Gen.cacheClosedUnrefRechecks`; with `false` it
+is called unconditionally, as before that repair. -/
 structure Shared where
   nodes : List Node
   closed : Bool
@@ -85,6 +87,7 @@ structure Shared where
   dead : List Node
   stale : Bool
   clearDel : Bool
+  recheck : Bool
   deriving DecidableEq, Repr, Inhabited
 
 inductive Call
@@ -366,6 +369,13 @@ def execCloseLock (s : Shared) (force : Bool) : Res :=
       (if force then [Instr.zero n.id] else []) ++ [Instr.levict n.id] ++
       (if force then [Instr.fin n.id true] else [])), [])
 
+/-- `atomic.LoadInt32(&n.ref) != 0` through a node pointer (a node that `mBucket.delete` removed was removed with
+a zero counter, and nobody can find it any more). -/
+def refNonZero (ns : List Node) (id : Nat) : Bool :=
+  match findId ns id with
+  | some n => decide (n.ref ≠ 0)
+  | none => false
+
 def exec (s : Shared) : Instr → Res
   | .enter c => execEnter s c
   | .bget k m => execBget s k m
@@ -380,7 +390,11 @@ def exec (s : Shared) : Instr → Res
   | .unrefInt id => execUnref s id false
   | .unrefExt id => execUnref s id true
   | .extz id key =>
-    if s.closed then some ({ s with rlock := s.rlock + 1 }, [.fin id false, .runlock], [])
+    if s.closed then
+      -- repaired code: `if atomic.LoadInt32(&n.ref) == 0 { n.callFinalizer() }`
+      if s.recheck && refNonZero s.nodes id then
+        some ({ s with rlock := s.rlock + 1 }, [.runlock], [])
+      else some ({ s with rlock := s.rlock + 1 }, [.fin id false, .runlock], [])
     else some ({ s with rlock := s.rlock + 1 }, [.delz key, .runlock], [])
   | .delz key => execDelz s key
   | .fin id forced => execFin s id forced
@@ -402,15 +416,24 @@ def startCall : Call → List Instr
   | .release id => [.relH id]
   | c => [.enter c]
 
-/-- `cache.NewCache(cache.NewLRU(capacity))`, for either version of `mBucket.delete` (`clearDel`). -/
-def Shared.newCfg (clearDel : Bool) (capacity : Nat) : Shared :=
+/-- Which version of the code the model runs (see `Shared.clearDel`, `Shared.recheck`). -/
+structure Cfg where
+  clearDel : Bool
+  recheck : Bool
+  deriving DecidableEq, Repr, Inhabited
+
+/-- The code as it is: both flags are read off the source by `tools/extract`. -/
+def Cfg.code : Cfg := { clearDel := Gen.cacheDeleteClearsDelFuncs, recheck := Gen.cacheClosedUnrefRechecks }
+
+/-- `cache.NewCache(cache.NewLRU(capacity))`, for the given version of the code. -/
+def Shared.newCfg (cfg : Cfg) (capacity : Nat) : Shared :=
   { nodes := [], closed := false, rlock := 0, lru := { capacity := capacity, used := 0, recent := [] },
     nextId := 0, nextVal := 0, nextDel := 0, statNodes := 0, statSize := 0, handles := [], bug := false,
-    forced := false, dropped := [], dead := [], stale := false, clearDel := clearDel }
+    forced := false, dropped := [], dead := [], stale := false, clearDel := cfg.clearDel,
+    recheck := cfg.recheck }
 
-/-- `cache.NewCache(cache.NewLRU(capacity))` of the code as it is (`Gen.cacheDeleteClearsDelFuncs` is read off the
-source by `tools/extract`). -/
-def Shared.new (capacity : Nat) : Shared := Shared.newCfg Gen.cacheDeleteClearsDelFuncs capacity
+/-- `cache.NewCache(cache.NewLRU(capacity))` of the code as it is. -/
+def Shared.new (capacity : Nat) : Shared := Shared.newCfg Cfg.code capacity
 
 /-! ## Sequential API: one thread, each call run to completion -/
 
@@ -439,11 +462,11 @@ structure Sys where
   log : List Ev
   deriving DecidableEq, Repr, Inhabited
 
-def Sys.initCfg (clearDel : Bool) (capacity nthreads : Nat) : Sys :=
-  { sh := Shared.newCfg clearDel capacity, threads := List.replicate nthreads [], log := [] }
+def Sys.initCfg (cfg : Cfg) (capacity nthreads : Nat) : Sys :=
+  { sh := Shared.newCfg cfg capacity, threads := List.replicate nthreads [], log := [] }
 
 /-- The initial state for the code as it is. -/
-def Sys.init (capacity nthreads : Nat) : Sys := Sys.initCfg Gen.cacheDeleteClearsDelFuncs capacity nthreads
+def Sys.init (capacity nthreads : Nat) : Sys := Sys.initCfg Cfg.code capacity nthreads
 
 inductive Act
   | call (t : Nat) (c : Call)
@@ -510,7 +533,7 @@ def runSched (guarded : Bool) : Sys → List Act → Option Sys
     | none => none
 
 inductive Reachable (guarded : Bool) : Sys → Prop
-  | init (clearDel : Bool) (capacity nthreads : Nat) : Reachable guarded (Sys.initCfg clearDel capacity nthreads)
+  | init (cfg : Cfg) (capacity nthreads : Nat) : Reachable guarded (Sys.initCfg cfg capacity nthreads)
   | step {s s' : Sys} (a : Act) : Reachable guarded s → sysStep guarded s a = some s' → Reachable guarded s'
 
 end GoLevel.CacheM
